@@ -164,9 +164,9 @@ type b2bcase struct {
 	FaultStep int     `json:"backend_fails_during_step"` // -1: never
 }
 
-// Three digests: "abc" and "" under i/j, and "abc" under i (same hash, other instance name).
+// Three digests: "abc" and "" under i/j, and "abc" under i/../k (same hash, another instance name - one with a ".." component, which instance names admit and resource paths must carry unchanged).
 func b2bDigests() ([]digest.Digest, [][]byte) {
-	return []digest.Digest{digestOf(instanceName, []byte("abc")), digestOf(instanceName, nil), digestOf("i", []byte("abc"))},
+	return []digest.Digest{digestOf(instanceName, []byte("abc")), digestOf(instanceName, nil), digestOf("i/../k", []byte("abc"))},
 		[][]byte{[]byte("abc"), {}, []byte("abc")}
 }
 
